@@ -6,6 +6,7 @@ pub mod c03;
 pub mod c04;
 pub mod c04_create;
 pub mod c05;
+pub mod c15;
 pub mod c19;
 
 pub fn run(id: &str, tier: Tier) -> i32 {
@@ -13,6 +14,7 @@ pub fn run(id: &str, tier: Tier) -> i32 {
         "C03" => c03::run(tier),
         "C04" => c04::run(tier),
         "C05" => c05::run(tier),
+        "C15" => c15::run(tier),
         "C19" => c19::run(tier),
         _ => {
             eprintln!("unknown property '{id}'");
@@ -28,6 +30,7 @@ pub fn replay(id: &str, j: &J) -> i32 {
         "C03" => c03::replay(&case),
         "C04" => c04::replay(&case),
         "C05" => c05::replay(&case),
+        "C15" => c15::replay(&case),
         "C19" => c19::replay(&case),
         _ => None,
     };
